@@ -462,3 +462,83 @@ fn c13_theta_foreign_versions() {
     core::mem::forget(g);
     kani::cover!(n == 2);
 }
+
+fn v4_case<const N: usize>() {
+    // entries are built from symbolic deltas of at most DELTA_BITS bits so that the bit width is symbolic
+    let theta: u64 = kani::any();
+    kani::assume(theta >= 2 && theta <= MAX_THETA);
+    let mut v = [0u64; N];
+    let mut prev = 0u64;
+    let mut i = 0;
+    while i < N {
+        let d: u64 = kani::any();
+        kani::assume(d >= 1 && d < theta && prev <= theta - 1 - d);
+        prev += d;
+        v[i] = prev;
+        i += 1;
+    }
+    let c = CompactThetaSketch { entries: v.to_vec(), theta, seed_hash: 0x93CC, ordered: true, empty: false };
+    kani::assume(c.is_suitable_for_compression());
+    let bytes = c.serialize_compressed();
+    // ---- spec decoder: compact theta serial version 4 header
+    let est = theta < MAX_THETA;
+    assert!(bytes[0] == if est { 2 } else { 1 }, "v4 preamble longs");
+    assert!(bytes[1] == 4 && bytes[2] == 3, "serial version 4 / family 3");
+    let entry_bits = bytes[3];
+    let count_bytes = bytes[4] as usize;
+    assert!(bytes[5] == (2 | 8 | 16), "v4 flags: read-only | compact | ordered");
+    assert!(rd_u16(&bytes, 6) == 0x93CC);
+    let mut off = 8;
+    if est {
+        assert!(rd_u64(&bytes, 8) == theta, "theta long");
+        off = 16;
+    }
+    let mut n = 0usize;
+    let mut i = 0;
+    while i < count_bytes {
+        n |= (bytes[off + i] as usize) << (8 * i);
+        i += 1;
+    }
+    assert!(n == N && count_bytes == 1, "entry count bytes");
+    off += count_bytes;
+    assert!(entry_bits >= 1 && entry_bits <= 63);
+    assert!(bytes.len() == off + (N * entry_bits as usize + 7) / 8, "v4 image length");
+    // the widest delta needs exactly entry_bits bits
+    let mut ored = 0u64;
+    let mut p = 0u64;
+    let mut i = 0;
+    while i < N {
+        ored |= v[i] - p;
+        p = v[i];
+        i += 1;
+    }
+    assert!(64 - ored.leading_zeros() as u8 == entry_bits, "entry_bits is not the width of the widest delta");
+    // ---- round trip
+    let r = CompactThetaSketch::deserialize(&bytes);
+    assert!(r.is_ok(), "own v4 image rejected");
+    let g = r.unwrap();
+    same_compact(&c, &g);
+    kani::cover!(entry_bits == 63);
+    kani::cover!(entry_bits == 1);
+    core::mem::forget((c, g, bytes));
+}
+
+//@ props: C11 C12
+//@ tier: quick
+//@ timeout: 2400
+//@ functions: theta::CompactThetaSketch::serialize_compressed
+//@ functions: theta::CompactThetaSketch::serialize_v4
+//@ functions: theta::CompactThetaSketch::deserialize_v4
+//@ functions: theta::CompactThetaSketch::compute_entry_bits
+//@ functions: theta::CompactThetaSketch::num_entries_bytes
+//@ functions: theta::bit_pack::BitPacker::pack_value
+//@ functions: theta::bit_pack::BitUnpacker::unpack_value
+//@ bounds: ordered compact sketches with 2 and 3 entries (tail path; the 8-entry block path is covered per width by c11_pack_bits_NN), every theta, every delta - so every bit width 1..=63 arises symbolically
+//@ desc: the compressed image has the v4 header (preLongs 1/2, serVer 4, family 3, entry_bits @3, count-byte count @4, flags, seed hash, theta, little-endian count), the declared width is that of the widest delta, the length is header + ceil(n*bits/8), and it deserializes to the identical sketch
+#[kani::proof]
+#[kani::unwind(70)]
+#[kani::stub(alloc::fmt::format, stub_format)]
+fn c11_theta_v4_roundtrip_tail() {
+    v4_case::<2>();
+    v4_case::<3>();
+}
